@@ -325,7 +325,10 @@ def rule_guard(ctx, rep):
                 for x in hir.walk(b["hir"]):
                     if x.get("k") == "call" and "arrayvec::" in (hir.callee(x) or ""):
                         used.add(hir.callee(x).split("::")[-1])
-        rep.check(used <= {"clear", "len", "is_full", "push", "deref", "index"}, "arrayvec-guard", "anstyle_parse", f"arrayvec-api@{c}", f"{sorted(used)}", "")
+        # (constructors of the empty vector, read-only accessors and shrinking methods can neither overflow nor panic)
+        harmless = {"clear", "len", "is_full", "push", "deref", "index", "default", "new", "new_const", "is_empty", "capacity", "remaining_capacity",
+                    "as_slice", "as_ref", "iter", "truncate", "clone", "eq", "ne", "fmt", "last", "first", "pop"}
+        rep.check(used <= harmless, "arrayvec-guard", "anstyle_parse", f"arrayvec-api@{c}", f"{sorted(used - harmless) or sorted(used)}", "")
 
 
 def rule_seven_bit(ctx, rep):
